@@ -275,9 +275,11 @@ BASE_POINT = {
     'evorder': 'grouped', # D4b: grouped (ins then outs) | interleaved (in,out,in,out,...) | outsfirst
     'mc': 'none',         # D9: none | p0:<granting index> | p1:<granting index>
     'mcsig': 'io',        # D9b: formals of claim/release: io = claim(in,out) release(out) | none | inout = claim(inout) release(in)
+    'mcreply': 'simple',  # D9d: how the claim event writes its reply enum (declared INSIDE the interface): simple | itf (IMc0.Res) | full
     'mcmenu': 'full',     # D9c: full = claim, release, two other in-events, two out-events | bare = claim, release, one out-event
     'kind': 'component',  # D10
     'prefix': '',         # D11: '' | 'Other.Project'
+    'portorder': 'grouped',  # D14: ports declared grouped by direction | interleaved (provides, requires, provides, ...)
     'nameform': 'plain',  # D13: how port names reach the configuration: plain str | instances of a str subclass with its own __str__
     'stem': 'M',          # D12: name of the Dezyne source file (= prefix of the shell's name): 'M' | a 52-character name
 }
@@ -291,7 +293,7 @@ DIMS = {
     'share': [True, False, 'aba'],      # 'aba': the first and third port of a side share an interface, the second has another
     'menu': ['full', 'empty', 'inonly', 'outonly'],
     'evorder': ['grouped', 'interleaved', 'outsfirst', 'reversed'],
-    'names': ['plain', 'caps', 'under', 'evlike', 'pykw', 'long'],
+    'names': ['plain', 'caps', 'under', 'evlike', 'pykw', 'long', 'dunder'],
     'evnames': ['plain', 'acqfree', 'swapped', 'pykw'],
     'psem': ['MTS', 'STS'],
     'rsem': ['allmts', 'allsts', 'firstmts', 'firststs', 'lastmts', 'laststs'],
@@ -299,10 +301,12 @@ DIMS = {
     'mc': ['none', 'p0:0', 'p0:1', 'p0:2', 'p0:3', 'p1:0'],
     'mcsig': ['io', 'none', 'inout'],
     'mcmenu': ['full', 'bare'],
+    'mcreply': ['simple', 'itf', 'full'],
     'kind': ['component', 'system'],
-    'prefix': ['', 'Other.Project'],
+    'prefix': ['', 'Other.Project', 'M'],     # 'M': the name of the innermost namespace of an encapsulee in N.M
     'stem': ['M', 'VeryLongDezyneModelFileNameForTheHeatingSubsystemCtrl'],
     'nameform': ['plain', 'subclass'],
+    'portorder': ['grouped', 'interleaved'],
 }
 
 PORT_NAMES = {'plain': (['p', 'p2', 'p3'], ['r', 'r2', 'r3'], ['inj', 'inj2', 'inj3']),
@@ -312,6 +316,8 @@ PORT_NAMES = {'plain': (['p', 'p2', 'p3'], ['r', 'r2', 'r3'], ['inj', 'inj2', 'i
               'evlike': (['V0', 'O2', 'Evt'], ['O0', 'Same', 'Claim'], ['BoolRet', 'IntRet', 'Four']),
               # identifiers that are legal in Dezyne and C++ but keywords / builtins of Python
               'pykw': (['is', 'None', 'from'], ['as', 'self', 'raise'], ['lambda', 'def', 'elif']),
+              # double underscores and underscore + capital (legal Dezyne names that C++ style guides frown upon)
+              'dunder': (['hal__uart', '_Api', 'p__'], ['r__x', '_Hal', 'x__y__z'], ['inj__', '_Inj', 'i__']),
               # long names: generated statements exceed any reasonable line width
               'long': (['primaryTemperatureControlInterfacePortNumberOne', 'primaryTemperatureControlInterfacePortNumberTwo',
                         'primaryTemperatureControlInterfacePortNumberThree'],
@@ -432,6 +438,10 @@ def valid_point(pt):
         return False
     if pt.get('mcmenu', 'full') != 'full' and pt['mc'] == 'none':
         return False
+    if pt.get('mcreply', 'simple') != 'simple' and pt['mc'] == 'none':
+        return False
+    if pt.get('portorder', 'grouped') != 'grouped' and (pt['nprov'] + pt['nreq'] + pt['ninj'] < 3 or pt['nprov'] < 1):
+        return False
     if pt['nreq'] == 0 and pt['rsem'] != 'allmts':
         return False
     return True
@@ -480,6 +490,10 @@ def build_model(pt):
 
     def make_itf(name, is_mc):
         events = mc_events(pt['evnames'], pt.get('mcsig', 'io'), pt.get('mcmenu', 'full')) if is_mc else menu_events(pt['menu'])
+        if is_mc and pt.get('mcreply', 'simple') != 'simple':
+            # the reply enum of the claim event written qualified by its interface / fully qualified
+            own = ([f'S{len(sub_of)}'] if split else []) + [name]
+            events[0][2] = (own if pt['mcreply'] == 'itf' else itf_ns + own) + ['Res']
         events = reorder(events, pt.get('evorder', 'grouped'))
         node = ['interface', name, [list(t) for t in types], events]
         if split:
@@ -539,6 +553,12 @@ def build_model(pt):
             if not have_itf('IInj'):
                 make_itf('IInj', False)
             ports.append([inames[i], written('IInj'), 'requires', True])
+    if pt.get('portorder', 'grouped') == 'interleaved':
+        provs = [p for p in ports if p[2] == 'provides']
+        reqs = [p for p in ports if p[2] == 'requires']
+        ports = []
+        for i in range(max(len(provs), len(reqs))):
+            ports += provs[i:i + 1] + reqs[i:i + 1]
     # put the multi-client port second if p1
     if pt['kind'] == 'system':
         comp = ['system', 'Comp', ports, [], []]
@@ -660,6 +680,8 @@ def lab_points(k):
                       {'mc': 'p1:0', 'nprov': 3, 'nreq': 3, 'names': 'caps'},       # ... in the middle of three
                       {'nprov': 3, 'nreq': 3, 'share': 'aba'},                     # same interface on non-adjacent ports
                       {'stem': DIMS['stem'][1], 'fac': 'import'},                  # long shell name, both origins
+                      {'ns': 'N.M', 'prefix': 'M'},        # support namespace named like the encapsulee's innermost namespace
+                      {'nprov': 2, 'nreq': 2, 'portorder': 'interleaved'},         # ports not grouped by direction
                       {'nprov': 3, 'nreq': 3, 'rsem': 'lastmts'}):
             pt = dict(base)
             pt.update(delta)
